@@ -59,15 +59,32 @@ def main():
         P.oblige('radiations_of_joins.identity', 'survey.radiations', tag, E.prove_abs(goal, nz + p['pc'] + period, extra_terms=[t]), strict=True,
                  note='the distance and bearing of a join, radiated from the first point, reproduce the second point exactly (in R)')
     brg, dist, rot, psf = real('brg'), real('dist'), real('rot'), real('psf')
-    rr = sv.radiations(e1, n1, brg, dist, rot, psf)
     spec_e = e1.t + dist.t * psf.t * UF['sin']((brg.t + rot.t) * PI / 180)
     spec_n = n1.t + dist.t * psf.t * UF['cos']((brg.t + rot.t) * PI / 180)
-    P.oblige('radiations.rotation_scale.east', 'survey.radiations', 'all', E.prove_eq(lift(rr[0]), spec_e, []), code=lift(rr[0]), spec=spec_e)
-    P.oblige('radiations.rotation_scale.north', 'survey.radiations', 'all', E.prove_eq(lift(rr[1]), spec_n, []), code=lift(rr[1]), spec=spec_n,
-             note='the radiated vector is the polar vector (dist, brg) rotated by `rotation` and scaled by `psf`')
-    r0 = sv.radiations(e1, n1, brg, dist)
-    P.oblige('radiations.defaults', 'survey.radiations', 'rotation=0, psf=1',
-             E.prove_eq(lift(r0[0]), e1.t + dist.t * UF['sin'](brg.t * PI / 180), []), code=lift(r0[0]), spec=e1.t + dist.t * UF['sin'](brg.t * PI / 180))
+
+    def refute_rad(w):
+        import math as _m
+        for args in ((500.0, 500.0, 0.0, 0.5, 2.309722, 1), (500.0, 500.0, 33.0, 120.0, 2.309722, 1.0), (10.0, -20.0, 271.5, 1000.0, -1.25, 0.9996), (0.0, 0.0, 90.0, 10.0, 0.0, 1.0002), (5.0, 5.0, 45.0, 7.0, 10.0, 1.0)):
+            got = sv.radiations(*args)
+            want = (args[0] + args[3] * args[5] * _m.sin(_m.radians(args[2] + args[4])), args[1] + args[3] * args[5] * _m.cos(_m.radians(args[2] + args[4])))
+            if max(abs(float(g) - v) for g, v in zip(got, want)) > 1e-6:
+                return dict(call='radiations%r' % (args,), observed=[float(g) for g in got], expected=list(want), input=dict(args=list(args)))
+        return None
+    prr = E.explore(lambda: sv.radiations(e1, n1, brg, dist, rot, psf), label='survey.radiations')
+    okr = bool(prr) and all(p['kind'] == 'ret' for p in prr)
+    if not okr:
+        P.oblige('radiations.returns', 'survey.radiations', 'all', dict(result='sat', backend='path enumeration', ms=0), strict=True, refute=refute_rad, pool=[{}])
+    for i_, p in enumerate([q for q in prr if q['kind'] == 'ret']):          # one path on the unchanged tree
+        tag = 'all' if len(prr) == 1 else 'path %d' % (i_ + 1)
+        rr = p['val']
+        P.oblige('radiations.rotation_scale.east', 'survey.radiations', tag, E.prove_eq(lift(rr[0]), spec_e, p['pc']), code=lift(rr[0]), spec=spec_e, hyps=p['pc'], refute=refute_rad, pool=[{}])
+        P.oblige('radiations.rotation_scale.north', 'survey.radiations', tag, E.prove_eq(lift(rr[1]), spec_n, p['pc']), code=lift(rr[1]), spec=spec_n, hyps=p['pc'], refute=refute_rad, pool=[{}],
+                 note='the radiated vector is the polar vector (dist, brg) rotated by `rotation` and scaled by `psf`')
+    pr0 = E.explore(lambda: sv.radiations(e1, n1, brg, dist))
+    for i_, p in enumerate([q for q in pr0 if q['kind'] == 'ret']):
+        r0 = p['val']
+        P.oblige('radiations.defaults', 'survey.radiations', 'rotation=0, psf=1' + ('' if len(pr0) == 1 else ', path %d' % (i_ + 1)),
+                 E.prove_eq(lift(r0[0]), e1.t + dist.t * UF['sin'](brg.t * PI / 180), p['pc']), code=lift(r0[0]), spec=e1.t + dist.t * UF['sin'](brg.t * PI / 180), hyps=p['pc'])
 
     # ---------------------------------------------------------------- va_conv
     za, sd, hi, ht = real('za'), real('sd'), real('hi'), real('ht')
@@ -190,4 +207,12 @@ def main():
 def replay(d):
     from bounded import C19 as b
     fi = d.get('failing_input') or {}
-    return b.replay_case(d.get('check'), fi.get('input', fi))
+    inp = fi.get('input', fi)
+    if d.get('layer') == 'P' and isinstance(inp, dict) and 'args' in inp and 'radiations' in (d.get('obligation') or ''):
+        import math as _m
+        import geodepy.survey as sv
+        a = inp['args']
+        got = sv.radiations(*a)
+        want = (a[0] + a[3] * a[5] * _m.sin(_m.radians(a[2] + a[4])), a[1] + a[3] * a[5] * _m.cos(_m.radians(a[2] + a[4])))
+        return None if max(abs(float(g) - v) for g, v in zip(got, want)) <= 1e-6 else dict(call='radiations%r' % (tuple(a),), observed=[float(g) for g in got], expected=list(want))
+    return b.replay_case(d.get('check'), inp)
